@@ -182,7 +182,7 @@ type relRef struct {
 
 func genCase(t *rapid.T) Case {
 	o := worldOpts()
-	w := gen.GenWorld(t, o)
+	w := gen.AnyWorld(t, o)
 	mo := w.Model
 	seen := map[string]bool{}
 	for _, tu := range w.Tuples {
